@@ -27,6 +27,7 @@ import (
 	"fmt"
 	"io"
 	"net"
+	"runtime"
 	"sort"
 	"strings"
 	"sync"
@@ -874,6 +875,59 @@ func InjectedKind(trace []Cmd, kind string) bool {
 		if c.Kind == kind && c.Injected {
 			return true
 		}
+	}
+	return false
+}
+
+// ---------------------------------------------------------------------------- concurrent rounds
+
+// ParkedInFlight counts the goroutines that are inside SingleFlight's createCall, i.e. that
+// found (or are about to find) a running flight for their key and wait for its result.
+// While the harness holds the one running database query at its gate, a reader counted
+// here has joined that query's flight for certain.  Used only to order events (release
+// the gate once every reader has joined) and to know which readers overlapped the flight,
+// never as an oracle; if the frames cannot be found the round is judged in the weak mode.
+func ParkedInFlight() int {
+	buf := make([]byte, 1<<20)
+	for {
+		n := runtime.Stack(buf, true)
+		if n < len(buf) {
+			return strings.Count(string(buf[:n]), "syncx.(*flightGroup).createCall")
+		}
+		buf = make([]byte, 2*len(buf))
+	}
+}
+
+// Fault plans of a concurrent round.
+const (
+	PlanNone         = "none"
+	PlanWriteBack    = "write-back-fails"    // the leader's SET / SET NX after the query is failed by the hook
+	PlanOutageDuring = "outage-during-query" // the store goes down while the query closure runs and stays down
+	PlanOutageBefore = "outage-before"       // the store is down before the readers start
+	PlanWaiterGet    = "waiter-get-fails"    // every GET of the key after the leader's is failed by the hook
+)
+
+// Plans is what a concurrent round draws from (half of the rounds run on a healthy store).
+var Plans = []string{PlanNone, PlanNone, PlanNone, PlanNone, PlanWriteBack, PlanWriteBack, PlanOutageDuring, PlanOutageBefore, PlanWaiterGet}
+
+// AwaitReaders waits (bounded) until the first query is held at the gate and all other
+// readers are parked in its flight.  It reports whether that state was reached.
+func AwaitReaders(g int, started, queries func() int64, maxInflight func() int64) (allParked bool) {
+	deadline := time.Now().Add(5 * time.Second)
+	for (started() < int64(g) || queries() == 0) && time.Now().Before(deadline) {
+		runtime.Gosched()
+	}
+	if queries() == 0 {
+		return false
+	}
+	// a healthy implementation parks g-1 readers within microseconds; one that does not share
+	// flights never will, so do not wait long once a second query is already running
+	soft := time.Now().Add(200 * time.Millisecond)
+	for time.Now().Before(soft) && maxInflight() < 2 {
+		if ParkedInFlight() >= g-1 {
+			return true
+		}
+		time.Sleep(50 * time.Microsecond)
 	}
 	return false
 }
